@@ -11,6 +11,7 @@ The only types available are basic integer types and a pointer type.
 
 from binascii import hexlify
 from itertools import chain
+import json
 import logging
 from .utils.collections import OrderedSet
 
@@ -1263,7 +1264,22 @@ class InlineAsm(Instruction):
         return found
 
     def __str__(self):
-        return f"asm ({self.template})"
+        # Shape: asm ("template" : outputs : inputs : "clobbers")
+        # The template and the clobbers are strings with json escapes.
+        # Empty sections at the end are left out.
+        sections = [
+            [value.name for value in self.output_values],
+            [value.name for value in self.input_values],
+            [json.dumps(str(clobber)) for clobber in self.clobbers],
+        ]
+        while sections and not sections[-1]:
+            sections.pop()
+        txt = json.dumps(self.template)
+        for section in sections:
+            txt += " :"
+            if section:
+                txt += " " + ", ".join(section)
+        return f"asm ({txt})"
 
 
 class FinalInstruction(Instruction):
